@@ -409,6 +409,54 @@ fn trim_par_edges(s: &str) -> String {
     t
 }
 
+/// Physical extent of every markup-level line that holds prose: for each `Markup` node, its children
+/// are split at white space that contains a line break; a line that contains a `Text` child is
+/// recorded as "1" if it occupies one physical line of `text`, "n" otherwise.
+fn walk_c08_lines(n: &typst_syntax::LinkedNode, text: &str, acc: &mut Vec<String>) {
+    if n.kind() == K::Markup {
+        let mut s = String::new();
+        let mut start: Option<usize> = None;
+        let mut end = 0usize;
+        let mut has_text = false;
+        let mut flush = |s: &mut String, start: &mut Option<usize>, end: usize, has_text: &mut bool| {
+            if let Some(a) = *start {
+                if *has_text {
+                    s.push(if text[a..end].contains('\n') || text[a..end].chars().any(typst_syntax::is_newline) { 'n' } else { '1' });
+                }
+            }
+            *start = None;
+            *has_text = false;
+        };
+        for c in n.children() {
+            let k = c.kind();
+            let brk = k == K::Parbreak || (k == K::Space && c.text().chars().any(typst_syntax::is_newline));
+            if brk {
+                flush(&mut s, &mut start, end, &mut has_text);
+            } else if k != K::Space {
+                if start.is_none() {
+                    start = Some(c.range().start);
+                }
+                end = c.range().end;
+                if k == K::Text {
+                    has_text = true;
+                }
+            }
+        }
+        flush(&mut s, &mut start, end, &mut has_text);
+        acc.push(s);
+    }
+    for c in n.children() {
+        walk_c08_lines(&c, text, acc);
+    }
+}
+
+pub fn obs_c08_lines(text: &str) -> Vec<String> {
+    let s = parse(text);
+    let mut acc = vec![];
+    walk_c08_lines(&typst_syntax::LinkedNode::new(s.root()), text, &mut acc);
+    acc
+}
+
 pub fn obs_c08(text: &str) -> String {
     let s = parse(text);
     let mut acc = vec![];
@@ -428,6 +476,20 @@ pub fn check_c08(src: &str, out: &str) -> Option<String> {
             }
         }
         return Some(format!("number of markup nodes differs: {} vs {}", av.len(), bv.len()));
+    }
+    // a prose line that was one physical line stays one physical line
+    let la = obs_c08_lines(src);
+    let lb = obs_c08_lines(out);
+    if la.len() == lb.len() {
+        for (i, (x, y)) in la.iter().zip(lb.iter()).enumerate() {
+            if x.len() == y.len() {
+                for (j, (p, q)) in x.chars().zip(y.chars()).enumerate() {
+                    if p == '1' && q != '1' {
+                        return Some(format!("markup node {}: prose line {} was on one line and is now spread over several", i, j));
+                    }
+                }
+            }
+        }
     }
     None
 }
